@@ -88,6 +88,7 @@ func (p *Pair) Model(op Op, timeout time.Duration) Result {
 			}
 			res, jerr := rassemble.Join(lines)
 			p.joins++
+			monitorEngine(lines, res, jerr)
 			var add Op
 			if jerr != nil {
 				add = Op{Name: "join.addErr", Args: bytesOf(lines)}
@@ -159,4 +160,45 @@ func parallel(env *Env, n int, workers int, f func(p *Pair, i int)) {
 func fileExists(p string) bool {
 	_, err := os.Stat(p)
 	return err == nil
+}
+
+// ---- assumption monitoring: what the theorems assume of the regex engine (EngineShape) -----------------
+
+var (
+	engineMu         sync.Mutex
+	engineJoins      int
+	engineViolations []string
+)
+
+// balancedText mirrors Crs.Passes.bal: every unescaped ( has its ).
+func balancedText(s string) bool {
+	esc := false
+	depth := 0
+	for i := 0; i < len(s); i++ {
+		c := s[i]
+		switch {
+		case c == '(' && !esc:
+			depth++
+		case c == ')' && !esc:
+			if depth == 0 {
+				return false
+			}
+			depth--
+		}
+		if c == '\\' {
+			esc = !esc
+		} else {
+			esc = false
+		}
+	}
+	return depth == 0
+}
+
+func monitorEngine(lines []string, res string, err error) {
+	engineMu.Lock()
+	defer engineMu.Unlock()
+	engineJoins++
+	if err == nil && !balancedText(res) && len(engineViolations) < 5 {
+		engineViolations = append(engineViolations, "Join("+strings.Join(lines, " , ")+") = "+res+" is not balanced")
+	}
 }
